@@ -573,6 +573,70 @@ func runC15(w *World, r *Report) {
 		}
 	}
 
+	// the graph library closes the stop channel of a walk when the walk is over: a send on it panics once the walker is done,
+	// and whether it is done is a race the sender cannot win
+	r.rule("no-send-on-a-walker-stop-channel", "no function of package accountant sends on the stop channel (result #1) of dag.AncestorsWalker / DescendantsWalker — directly, in a select, or in a helper that is handed the channel: the walker goroutine closes that channel when it has delivered its last id, and a send on a closed channel panics in the goroutine of the request", 0)
+	{
+		nStop := 0
+		isStopOfWalker := func(v ssa.Value) bool {
+			for _, o := range origins(v) {
+				if ex, ok := o.(*ssa.Extract); ok && ex.Index == 1 {
+					if c, ok := ex.Tuple.(*ssa.Call); ok {
+						if n := calleeName(c); n == dagM("AncestorsWalker") || n == dagM("DescendantsWalker") {
+							return true
+						}
+					}
+				}
+			}
+			return false
+		}
+		var fromWalker func(v ssa.Value, d int) bool
+		fromWalker = func(v ssa.Value, d int) bool {
+			if isStopOfWalker(v) {
+				return true
+			}
+			if d >= 2 {
+				return false
+			}
+			for _, o := range origins(v) {
+				if prm, ok := o.(*ssa.Parameter); ok {
+					for _, cs := range staticCallers(w, prm.Parent()) {
+						for k, p2 := range prm.Parent().Params {
+							if p2 == prm && k < len(cs.Common().Args) && fromWalker(cs.Common().Args[k], d+1) {
+								return true
+							}
+						}
+					}
+				}
+			}
+			return false
+		}
+		for _, fn := range w.RepoFuncs("accountant") {
+			instrsOf(fn, func(in ssa.Instruction) {
+				var chans []ssa.Value
+				switch x := in.(type) {
+				case *ssa.Send:
+					chans = append(chans, x.Chan)
+				case *ssa.Select:
+					for _, st := range x.States {
+						if st.Dir == types.SendOnly {
+							chans = append(chans, st.Chan)
+						}
+					}
+				}
+				for _, ch := range chans {
+					if fromWalker(ch, 0) {
+						nStop++
+						r.bad("no-send-on-a-walker-stop-channel", shortFn(fn)+"/send:"+pathOf(ch), lineOf(w, in), "nothing is sent on a channel the walker closes", "this send goes to the stop channel of a graph walk: the walker closes it after its last id, a send after that panics (send on closed channel) in the goroutine that serves the request")
+					}
+				}
+			})
+		}
+		if nStop == 0 {
+			r.ok("no-send-on-a-walker-stop-channel", "none", "-", "no send on a walker's stop channel")
+		}
+	}
+
 	// unlocking a mutex that is not locked is a fatal error of the runtime, not a panic: nothing recovers from it
 	r.rule("unlock-finds-the-lock-held", "in the request-serving packages every Unlock / RUnlock is executed with that mutex in the must-hold lockset — an explicit one where it stands, a deferred one at every return that is reachable from the defer statement (an early return between a manual Unlock and the re-Lock leaves through the deferred Unlock with the mutex free: fatal error: sync: Unlock of unlocked RWMutex)", 6)
 	{
@@ -846,7 +910,6 @@ func mapResultMayBeNil(w *World, c *ssa.Call, idx, depth int, seen map[ssa.Value
 	}
 	return ""
 }
-
 
 // repoImplementations: the repo functions an interface method call can dispatch to (every repo type whose method set
 // satisfies the interface; the wiring in cmd/ is not needed).
